@@ -27,6 +27,10 @@ type src struct {
 	E       *Exp
 	T       *Ty
 	Tainted bool
+	// NoSplit: output of a sub-pipeline call with a disabled modifier; a
+	// mapped call over it makes mrp panic (recorded finding), so it is not
+	// used as a split source in the main stream.
+	NoSplit bool
 }
 
 // Opts tunes the shape grammar.
@@ -215,7 +219,7 @@ func (g *G) withProjections(s src, depth int) []src {
 		}
 		e := *s.E
 		e.Path = append(append([]string(nil), s.E.Path...), f.Name)
-		out = append(out, g.withProjections(src{&e, ft, s.Tainted}, depth-1)...)
+		out = append(out, g.withProjections(src{&e, ft, s.Tainted, s.NoSplit}, depth-1)...)
 	}
 	return out
 }
@@ -431,7 +435,7 @@ func (g *G) genPipeline(name string, callables []sig) (*Pipeline, sig) {
 	}
 	var srcs []src
 	for _, f := range p.Ins {
-		srcs = append(srcs, g.withProjections(src{&Exp{K: "ref", Src: "self", Out: f.Name}, f.T, false}, 2)...)
+		srcs = append(srcs, g.withProjections(src{&Exp{K: "ref", Src: "self", Out: f.Name}, f.T, false, false}, 2)...)
 	}
 	usedCallee := map[string]int{}
 	ncalls := 1 + g.r.Intn(4)
@@ -474,7 +478,7 @@ func (g *G) genPipeline(name string, callables []sig) (*Pipeline, sig) {
 				var cands []src
 				if wantSplit && !usedRefSplit && nsplit == 0 {
 					for _, s := range srcs {
-						if g.assignable(ct, s.T) && !(g.noTaint && s.Tainted) {
+						if g.assignable(ct, s.T) && !(g.noTaint && s.Tainted) && !s.NoSplit {
 							cands = append(cands, s)
 						}
 					}
@@ -544,12 +548,13 @@ func (g *G) genPipeline(name string, callables []sig) (*Pipeline, sig) {
 				anyTaint = true
 			}
 		}
-		whole := src{&Exp{K: "ref", Src: c.ID}, wrapTy(TStruct(callee.Name), c.Mapped), anyTaint}
+		noSplit := c.Disabled != nil && !callee.IsStage
+		whole := src{&Exp{K: "ref", Src: c.ID}, wrapTy(TStruct(callee.Name), c.Mapped), anyTaint, noSplit}
 		srcs = append(srcs, whole)
 		for _, o := range callee.Outs {
 			srcs = append(srcs, g.withProjections(
 				src{&Exp{K: "ref", Src: c.ID, Out: o.Name}, wrapTy(o.T, c.Mapped),
-					c.Mapped != "" || callee.TaintedOuts[o.Name]}, 1)...)
+					c.Mapped != "" || callee.TaintedOuts[o.Name], noSplit}, 1)...)
 		}
 	}
 	// outputs: bound to available sources, or literals
